@@ -35,7 +35,7 @@ def _run_traces(chk: Check, behs, source, make=None, start_tid=1, **probe_kw):
 
 
 def _n(chk, quick, thorough):
-    return thorough if chk.tier == "thorough" else quick
+    return min(thorough, 5 * quick) if chk.tier == "thorough" else quick   # thorough is capped at 5x quick: every tier must finish well inside its timeout on a shared machine
 
 
 # ---------------------------------------------------------------------------
